@@ -91,16 +91,28 @@ REF_EXPANSION = {
     ('+', 'NegatedIntercept', 'Term'): [('-', '{N; OTHER}')],
     ('+', 'NegatedIntercept', 'GroupSpecificTerm'): [('-', '{N; OTHER}')],
     ('+', 'NegatedIntercept', 'Model'): [('-', '{N; e | e in ALL(OTHER)}')],
+    ('+', 'Term', 'Intercept'): [('-', '{I; SELF}')],
+    ('+', 'Term', 'NegatedIntercept'): [('-', '{N; SELF}')],
     ('+', 'Term', 'Term'): [('SELF != OTHER', '{OTHER; SELF}'), ('SELF == OTHER', 'SELF')],
+    ('+', 'Term', 'GroupSpecificTerm'): [('-', '{OTHER; SELF}')],
     ('+', 'Term', 'Model'): [('-', '{SELF; e | e in ALL(OTHER)}')],
+    ('+', 'GroupSpecificTerm', 'Intercept'): [('-', '{I; SELF}')],
+    ('+', 'GroupSpecificTerm', 'NegatedIntercept'): [('-', '{N; SELF}')],
+    ('+', 'GroupSpecificTerm', 'Term'): [('-', '{OTHER; SELF}')],
+    ('+', 'GroupSpecificTerm', 'GroupSpecificTerm'): [('SELF != OTHER', '{OTHER; SELF}'), ('SELF == OTHER', 'SELF')],
+    ('+', 'GroupSpecificTerm', 'Model'): [('-', '{SELF; e | e in ALL(OTHER)}')],
     ('+', 'Model', 'Intercept'): [('-', '{I; e | e in ALL(SELF)}')],
     ('+', 'Model', 'NegatedIntercept'): [('-', '{e | e in ALL(SELF)} minus {I}')],
     ('+', 'Model', 'Term'): [('-', '{OTHER; e | e in ALL(SELF)}')],
     ('+', 'Model', 'GroupSpecificTerm'): [('-', '{OTHER; e | e in ALL(SELF)}')],
     ('+', 'Model', 'Model'): [('-', '{e | e in ALL(OTHER); e | e in ALL(SELF)}')],
     ('-', 'Intercept', 'Intercept'): [('-', '{}')],
+    ('-', 'Intercept', 'Term'): [('-', 'I')],
+    ('-', 'Intercept', 'GroupSpecificTerm'): [('-', 'I')],
     ('-', 'Intercept', 'Model'): [('I in OTHER', '{}'), ('I not in OTHER', 'I')],
+    ('-', 'Term', 'Intercept'): [('-', '{N; SELF}')],
     ('-', 'Term', 'Term'): [('SELF != OTHER', 'SELF'), ('SELF == OTHER', '{}')],
+    ('-', 'Term', 'GroupSpecificTerm'): [('-', 'SELF')],
     ('-', 'Term', 'Model'): [('SELF in OTHER', '{}'), ('SELF not in OTHER', 'SELF')],
     ('-', 'Model', 'Intercept'): [('OTHER in SELF', '{e | e in ALL(SELF)} minus {I}'), ('OTHER not in SELF', 'SELF')],
     ('-', 'Model', 'Term'): [('OTHER in SELF', '{e | e in ALL(SELF)} minus {OTHER}'), ('OTHER not in SELF', 'SELF')],
